@@ -134,7 +134,35 @@ impl Latex for UMix {}
 
 pub fn hex_f64(s: &str) -> f64 { f64::from_bits(u64::from_str_radix(s, 16).expect("hex f64")) }
 
-fn f<'a, It: Iterator<Item = &'a str>>(it: &mut It) -> f64 { hex_f64(it.next().expect("param")) }
+thread_local! {
+    /// cells that parameter tokens `@k` (Rc<RefCell<f64>> reference) and `*k` (FFI pointer into the same cell) refer to
+    static CELLS: std::cell::RefCell<Vec<std::rc::Rc<std::cell::RefCell<f64>>>> = std::cell::RefCell::new(vec![]);
+}
+
+/// Install the cells for reference-valued parameters: in the parameter position of RX RY RZ U1 U2 U3 CRX CRY CRZ CU1 CCRX
+/// CCRY CCRZ (bare or anywhere inside C / Kron / Comp / Loop) the token `@k` makes the parameter a live reference to
+/// `cells[k]` (`Parameter::from_refcell`), `*k` a raw pointer to the same f64 (`Parameter::FFIRef`).  The Lean side never
+/// sees these tokens: requests carry the term with the CURRENT values substituted (`resolve_refs`).
+pub fn set_cells(cells: &[std::rc::Rc<std::cell::RefCell<f64>>]) { CELLS.with(|c| *c.borrow_mut() = cells.to_vec()); }
+
+/// the term / op text with every `@k` / `*k` token replaced by the bit pattern of the cell's current value
+pub fn resolve_refs(text: &str) -> String
+{
+    CELLS.with(|c| text.split_whitespace().map(|t| if (t.starts_with('@') || t.starts_with('*')) && t.len() > 1 && t[1..].chars().all(|ch| ch.is_ascii_digit())
+        { crate::fbits(*c.borrow()[t[1..].parse::<usize>().unwrap()].borrow()) } else { t.to_string() }).collect::<Vec<_>>().join(" "))
+}
+
+fn param_of(tok: &str) -> Parameter
+{
+    if tok.starts_with('@') { let k: usize = tok[1..].parse().expect("cell"); CELLS.with(|c| Parameter::from_refcell(&c.borrow()[k], &format!("p{}", k))) }
+    else if tok.starts_with('*') { let k: usize = tok[1..].parse().expect("cell"); CELLS.with(|c| Parameter::FFIRef(c.borrow()[k].as_ptr() as *const f64)) }
+    else { Parameter::Direct(hex_f64(tok)) }
+}
+
+/// a parameter that may be a reference
+fn f<'a, It: Iterator<Item = &'a str>>(it: &mut It) -> Parameter { param_of(it.next().expect("param")) }
+/// a parameter of a gate whose constructor only takes plain values (CU2, CU3, user gates)
+fn fd<'a, It: Iterator<Item = &'a str>>(it: &mut It) -> f64 { hex_f64(it.next().expect("param")) }
 fn n<'a, It: Iterator<Item = &'a str>>(it: &mut It) -> usize { it.next().expect("nat").parse().expect("nat") }
 
 fn parse_ops<'a, It: Iterator<Item = &'a str>>(it: &mut It, comp: &mut Composite)
@@ -170,8 +198,8 @@ pub fn parse<'a, It: Iterator<Item = &'a str>>(it: &mut It) -> Dyn
         "CCX" => b!(CCX::new()), "CCZ" => b!(CCZ::new()),
         "CRX" => b!(CRX::new(f(it))), "CRY" => b!(CRY::new(f(it))), "CRZ" => b!(CRZ::new(f(it))),
         "CU1" => b!(CU1::new(f(it))),
-        "CU2" => { let (p, l) = (f(it), f(it)); b!(CU2::new(p, l)) },
-        "CU3" => { let (t, p, l) = (f(it), f(it), f(it)); b!(CU3::new(t, p, l)) },
+        "CU2" => { let (p, l) = (fd(it), fd(it)); b!(CU2::new(p, l)) },
+        "CU3" => { let (t, p, l) = (fd(it), fd(it), fd(it)); b!(CU3::new(t, p, l)) },
         "CCRX" => b!(CCRX::new(f(it))), "CCRY" => b!(CCRY::new(f(it))), "CCRZ" => b!(CCRZ::new(f(it))),
         "C" => { let g = parse(it); p!(C::new(g)) },
         "Kron" => { let g0 = parse(it); let g1 = parse(it); b!(Kron::new(g0, g1)) },
@@ -192,7 +220,7 @@ pub fn parse<'a, It: Iterator<Item = &'a str>>(it: &mut It) -> Dyn
             b!(Loop::new(&label, iters, comp))
         },
         "Inc2" => b!(UInc::new(2)), "Inc3" => b!(UInc::new(3)), "Inc4" => b!(UInc::new(4)),
-        "Mix" => b!(UMix { alpha: f(it) }),
+        "Mix" => b!(UMix { alpha: fd(it) }),
         other => panic!("unknown gate token {}", other)
     }
 }
